@@ -165,6 +165,7 @@ func genBase(t *rapid.T) ([]*gen.Node, *sgen.G) {
 	g.Loops = true
 	g.Slices = true
 	g.Hostile = 0
+	g.EmptyBlocks = rapid.Bool().Draw(t, "emptyblocks") // bodies and branches without statements
 	g.MaxDepth = rapid.IntRange(2, 3).Draw(t, "depth")
 	named := func(g *sgen.G, d int) *gen.Node {
 		// a call with a named argument and one with a trailing comma: positions of their own
@@ -657,6 +658,11 @@ func TestFixedOffenders(t *testing.T) {
 		{"for x in [1] { }\nif false { } else { break }", "break", true, true},
 		{"m = {\"a\": [1, {\"b\": nosuch()}]}", "nosuch()", true, true},
 		{"len(a = nosuch())", "nosuch()", true, false},
+		{"for x in [1, 2] { }\nbreak", "break", true, true},
+		{"for x in [] { }\nif true { continue }", "continue", true, true},
+		{"if true { for k in {\"a\": 1} { } }\nx = 1\nbreak", "break", true, true},
+		{"for ;; {\n for y in \"ab\" { }\n break\n}\ncontinue", "continue", true, true},
+		{"for i = 0; i < 1; i = i + 1 { }\nfor e in [1] { }\nif false { } else { break }", "break", true, true},
 		{"a = 1, nosuch()", "nosuch()", true, true},
 		{"a, b = 1, 2,\n nosuch(3)", "nosuch(3)", false, true},
 		{"for a = 0, nosuch(); a < 1; a = a + 1 {}", "nosuch()", true, true},
